@@ -165,7 +165,21 @@ pub fn worker() -> Handler {
             let _ = sh.run_string(PROBE.to_string(), &src, &params).await;
             settle().await;
             let (out1, mut off) = read_from((0, 0));
-            let fd1 = count_fds();
+            // descriptors of unwaited process substitutions close a little later, more so on a busy machine:
+            // a count is taken once it has been the same for a millisecond
+            let stable_fds = || async {
+                let mut n = count_fds();
+                for _ in 0..1000 {
+                    tokio::time::sleep(std::time::Duration::from_millis(1)).await;
+                    let m = count_fds();
+                    if m == n {
+                        break;
+                    }
+                    n = m;
+                }
+                n
+            };
+            let fd1 = stable_fds().await;
             let (sc1, cs1) = depths(&sh);
             let mut last_out = out1.clone();
             let mut last_st = st1;
@@ -178,10 +192,13 @@ pub fn worker() -> Handler {
                 last_out = o;
             }
             settle().await;
-            let mut fdn = count_fds();
-            if fdn != fd1 {
-                // give closing threads a moment before calling it a leak
-                tokio::time::sleep(std::time::Duration::from_millis(50)).await;
+            let mut fdn = stable_fds().await;
+            // a leak is a count that does not come back within a second
+            for _ in 0..100 {
+                if fdn == fd1 {
+                    break;
+                }
+                tokio::time::sleep(std::time::Duration::from_millis(10)).await;
                 fdn = count_fds();
             }
             let (scn, csn) = depths(&sh);
